@@ -392,6 +392,65 @@ func c08(run *ev.Run, tier string) {
 			}
 		}
 	}
+	// entries whose declared time lies outside 1970..2106, whose name ends in a
+	// blank, or whose missingok source is missing: still what they were declared
+	for _, t := range []string{"config", "config|noreplace", "config|missingok", "doc", "license"} {
+		for _, mt := range []int64{-86400, 4400000000} {
+			s := base()
+			s.Contents = append(s.Contents, &gen.Content{Type: t, Src: src, Dst: "/etc/typ/dated.conf", FI: &gen.FI{MTime: mt}, Exp: []gen.Expect{{Dst: "/etc/typ/dated.conf", Kind: "file", Src: src, Node: node}}})
+			cs := mkCase(s)
+			for _, f := range formats {
+				if (t == "doc" || t == "license") && f != "rpm" {
+					continue
+				}
+				run.Case(fmt.Sprintf("entry-time-outside-32-bits|%s|%d|%s", t, mt, f), true)
+				res := buildYAML(s.YAML(), f)
+				if res.Err != nil || res.Panic != "" {
+					continue // a format may refuse a time it cannot store
+				}
+				p := dec.Decode(f, res.Bytes, false)
+				for _, pr := range typingProblems(f, p, cs.Plan(f), &checked) {
+					run.Violate("C08/"+f+"/"+pr.kind, map[string]any{"entry_mtime": mt, "type": t, "detail": pr.detail})
+				}
+			}
+		}
+	}
+	for _, t := range []string{"config", "config|noreplace"} {
+		for _, dst := range []string{"/etc/typ/trailing blank.conf ", "/etc/typ/ leading.conf", "/etc/typ/tab\t"} {
+			s := base()
+			s.Contents = append(s.Contents, &gen.Content{Type: t, Src: src, Dst: dst, Exp: []gen.Expect{{Dst: dst, Kind: "file", Src: src, Node: node}}})
+			cs := mkCase(s)
+			for _, f := range formats {
+				run.Case(fmt.Sprintf("config-name-with-edge-white-space|%s|%q|%s", t, dst, f), true)
+				res := buildYAML(s.YAML(), f)
+				if res.Err != nil || res.Panic != "" {
+					continue
+				}
+				p := dec.Decode(f, res.Bytes, false)
+				if len(p.Errs) > 0 {
+					continue // such names are at the edge of what the metadata formats can carry
+				}
+				for _, pr := range typingProblems(f, p, cs.Plan(f), &checked) {
+					run.Violate("C08/"+f+"/"+pr.kind, map[string]any{"destination": dst, "type": t, "detail": pr.detail})
+				}
+			}
+		}
+	}
+	for _, missing := range []string{filepath.Join(dir, "no-such-file.conf"), filepath.Join(dir, "no-such-*.conf")} {
+		s := base()
+		s.Contents = append(s.Contents, &gen.Content{Type: "config|missingok", Src: missing, Dst: "/etc/typ/missingok.conf"})
+		for _, f := range formats {
+			run.Case(fmt.Sprintf("missingok-entry-without-source|glob=%v|%s", strings.Contains(missing, "*"), f), true)
+			res := buildYAML(s.YAML(), f)
+			if res.Err != nil || res.Panic != "" {
+				continue // loud
+			}
+			p := dec.Decode(f, res.Bytes, false)
+			if p.Find("/etc/typ/missingok.conf") == nil {
+				run.Violate("C08/"+f+"/declared-config-silently-left-out/missing-source", map[string]any{"type": "config|missingok", "source": filepath.Base(missing)})
+			}
+		}
+	}
 	// one parsed configuration, settings obtained for format X (which has an
 	// override block) and then for format Y: Y's per-packager configuration
 	// entries - listed before X's - are still registered in Y's package
